@@ -203,6 +203,19 @@ func (in *Interp) installStubs() {
 		return st.BVConstI(int64(in.builders[a[0].(Ptr).O].Len()), 64)
 	}
 	S["(*strings.Builder).Grow"] = func(in *Interp, a []Value) Value { return nil }
+	S["(*strings.Builder).Reset"] = func(in *Interp, a []Value) Value {
+		delete(in.builders, a[0].(Ptr).O)
+		return nil
+	}
+	S["(*strings.Builder).Cap"] = func(in *Interp, a []Value) Value {
+		return st.BVConstI(int64(in.builders[a[0].(Ptr).O].Len()), 64)
+	}
+	S["(*strings.Builder).WriteRune"] = func(in *Interp, a []Value) Value {
+		p := a[0].(Ptr)
+		bs := in.encodeRune(a[1].(*smt.Term))
+		in.builders[p.O] = in.strConcat(in.builders[p.O], in.normStr(bs))
+		return Tuple{st.BVConstI(int64(len(bs)), 64), Iface{}}
+	}
 	// ---- misc ----
 	S["encoding/json.Unmarshal"] = func(in *Interp, a []Value) Value {
 		abortf("json.Unmarshal reached (contract stub not in spike)")
